@@ -18,6 +18,10 @@ def main():
     run_cases(chk, "vlib.packing", "packing", names, {"tier": a.tier}, a.jobs)
     if a.tier == "thorough":
         run_cases(chk, "vlib.packing", "packing", corpus.select("c05", "c06", "c09"), {"tier": a.tier, "options": {"scalar_type": "float64"}}, a.jobs)
+    from vlib import randforms
+    rnames = [randforms.name_of(chk.seed, i) for i in range(12 if a.tier == "quick" else 160)] if not a.only else []
+    run_cases(chk, "vlib.packing", "packing", rnames, {"tier": a.tier}, a.jobs)
+    chk.extra["random_forms"] = len(rnames)
     chk.encoded("generated kernels + enabled_coefficients_* / original_coefficient_position_* initialisers", "ffcx.ir.representation coefficient_offsets / original_constant_offsets (through the emitted w[...] / c[...] accesses)")
     chk.bounds = {"programs": len(names), "entities": "all (quick: first 4 configs)", "permutation pairs": "all (quick: first 2)"}
     chk.assumptions = ["oracle packs w[coefficient][restriction][dof] over the coefficients UFL reports as surviving, c[constant][flat component] over original_form.constants()", "exact arithmetic"]
